@@ -622,6 +622,72 @@ Section Content.
   Qed.
 End Content.
 
+(** ** request content through the RequestAdaptor *)
+Section RequestContent.
+  Variable f : fns.
+  Hypothesis gz : forall b, f_gunzip f (f_gzip f b) = Some b.
+
+  Lemma request_adaptor_content : forall a h body h' body' content,
+    label_simple h -> decode f h body = Some content ->
+    request_adaptor f a h body = Some (h', body') ->
+    label_simple h' /\ decode f h' body' = Some (adapted a content) /\
+    (forall k, k <> CE -> h_values_exact k h' = h_values_exact k h).
+  Proof.
+    intros a h body h' body' content Hl Hc H. unfold request_adaptor, adapted in *.
+    destruct (a_on a); cbn [negb andb] in *.
+    2:{ inversion H. subst. repeat split; auto. }
+    set (p1 := if nonempty (a_body a) then (h_del CE h, a_body a) else (h, body)) in H.
+    set (c1 := if nonempty (a_body a) then a_body a else content).
+    assert (H1 : label_simple (fst p1) /\ decode f (fst p1) (snd p1) = Some c1 /\
+                 (forall k, k <> CE -> h_values_exact k (fst p1) = h_values_exact k h)).
+    { subst p1 c1. destruct (nonempty (a_body a)); cbn [fst snd].
+      - split; [left; apply label_del|]. split; [apply decode_plain, label_del|].
+        intros k K. rewrite values_del. change (canon_key CE) with CE. rewrite (neq_eqb _ _ K). reflexivity.
+      - repeat split; auto. }
+    clearbody c1. destruct p1 as [h1 b1]. cbn [fst snd] in H1. destruct H1 as [L1 [D1 S1]].
+    set (p2 := if a_compress a && String.eqb (h_get CE h1) "" then (h_set CE "gzip" h1, f_gzip f b1) else (h1, b1)) in H.
+    assert (H2 : label_simple (fst p2) /\ decode f (fst p2) (snd p2) = Some c1 /\
+                 (forall k, k <> CE -> h_values_exact k (fst p2) = h_values_exact k h)).
+    { subst p2. destruct (a_compress a); cbn [andb]; [|cbn [fst snd]; repeat split; auto].
+      destruct (String.eqb (h_get CE h1) "") eqn:Eg; cbn [fst snd]; [|repeat split; auto].
+      destruct L1 as [L1|L1]; [|rewrite get_CE, L1 in Eg; cbn in Eg; discriminate].
+      rewrite (decode_plain _ _ _ L1) in D1. inversion D1. subst c1.
+      split; [right; apply label_set|]. split; [rewrite decode_gzip; [apply gz|apply label_set]|].
+      intros k K. rewrite values_set. change (canon_key CE) with CE. rewrite (neq_eqb _ _ K). apply S1, K. }
+    destruct p2 as [h2 b2]. cbn [fst snd] in H2. destruct H2 as [L2 [D2 S2]].
+    destruct (a_decompress a); cbn [andb] in H.
+    2:{ inversion H. subst. repeat split; auto. }
+    destruct (String.eqb (h_get CE h2) "gzip") eqn:Eg.
+    2:{ inversion H. subst. repeat split; auto. }
+    destruct (f_gunzip f b2) as [d|] eqn:G; [|discriminate]. inversion H. subst h' body'. clear H.
+    destruct L2 as [L2|L2]; [rewrite get_CE, L2 in Eg; cbn in Eg; discriminate|].
+    rewrite (decode_gzip _ _ _ L2), G in D2. inversion D2. subst d.
+    split; [left; apply label_del|]. split; [apply decode_plain, label_del|].
+    intros k K. rewrite values_del. change (canon_key CE) with CE. rewrite (neq_eqb _ _ K). apply S2, K.
+  Qed.
+
+  (** with a RequestAdaptor (body / compress / decompress) the backend receives a body that
+      decodes, per the Content-Encoding it is labelled with, to the client's content or to
+      the adaptor's body; a failing decompression is the only way not to forward *)
+  Theorem request_content : forall q c r b added cloned content,
+    label_simple (cq_headers r) -> decode f (cq_headers r) (cq_body r) = Some content ->
+    stripped (cq_headers r) CE = false ->      (* the client does not list Content-Encoding in Connection *)
+    forward q f c r = ReqSent b added cloned ->
+    decode f (bq_headers b) (bq_body b) = Some (adapted (p_ra c) content).
+  Proof.
+    intros q c r b added cloned content Hl Hc Hns0 H.
+    destruct (forward_inv f _ _ _ _ _ _ H) as (p & qy & h & body & t & _ & E2 & _ & _ & Hb & _).
+    destruct (request_adaptor_content _ _ _ _ _ _ Hl Hc E2) as [L [D Hsame]].
+    assert (Hns : stripped h CE = false).
+    { unfold stripped, connection_tokens in *. rewrite (Hsame "Connection") by discriminate. exact Hns0. }
+    subst b. cbn [bq_headers bq_body].
+    assert (Hv : h_values_exact CE (fst (transport_request_headers (clone_header h))) = h_values_exact CE h).
+    { rewrite transport_headers_other by reflexivity.
+      destruct (hop_by_hop_stripped h CE) as [E _]. rewrite E, Hns. reflexivity. }
+    unfold decode in *. rewrite !get_CE in *. rewrite Hv. exact D.
+  Qed.
+End RequestContent.
+
 (** ** concrete external functions for witnesses and non-vacuity *)
 Fixpoint strip_gt (s : string) : option string :=
   match s with
@@ -820,3 +886,20 @@ Proof.
            end eq_refl).
 Qed.
 
+
+(** non-vacuity of [request_content]: a gzip-labelled request body through a decompressing
+    RequestAdaptor *)
+Example request_content_nonvacuous :
+  let r := {| cq_method := "PUT"; cq_target := "/x"; cq_host := "front.test";
+              cq_headers := [("Content-Encoding", ["gzip"]); ("Connection", ["close"])];
+              cq_body := toy_gzip "payload" |} in
+  let c := {| p_cstream := false; p_sstream := false; p_server_host := "backend:80"; p_host_is_name := false;
+              p_keep_host := false; p_minlen := None;
+              p_ra := {| a_on := true; a_body := ""; a_compress := false; a_decompress := true |}; p_rs := no_adapt |} in
+  label_simple (cq_headers r) /\ decode toy_fns (cq_headers r) (cq_body r) = Some "payload" /\
+  stripped (cq_headers r) CE = false /\
+  match forward ideal toy_fns c r with
+  | ReqSent b _ _ => bq_body b = "payload" /\ h_has_exact CE (bq_headers b) = false /\ bq_host b = "front.test"
+  | _ => False
+  end.
+Proof. cbv zeta. split; [right; reflexivity|]. vm_compute. repeat split. Qed.
